@@ -3448,3 +3448,156 @@ sf_get_chunk_data (const SF_CHUNK_ITERATOR * iterator, SF_CHUNK_INFO * chunk_inf
 
 	return SFE_BAD_CHUNK_FORMAT ;
 } /* sf_get_chunk_data */
+
+#ifdef LIBSNDFILE_VERIF
+/*------------------------------------------------------------------------------
+** Verification hooks (compiled only with -DLIBSNDFILE_VERIF).
+** Side-effect free observation of the private state: no error clearing, no
+** seeking, no I/O. Prototypes live in the verification harness.
+*/
+
+enum
+{	SF_VERIF_MODE = 0, SF_VERIF_LAST_OP, SF_VERIF_HAVE_WRITTEN, SF_VERIF_ERROR,
+	SF_VERIF_READ_CURRENT, SF_VERIF_WRITE_CURRENT, SF_VERIF_FRAMES, SF_VERIF_CHANNELS,
+	SF_VERIF_SAMPLERATE, SF_VERIF_FORMAT, SF_VERIF_SEEKABLE, SF_VERIF_SECTIONS,
+	SF_VERIF_DATAOFFSET, SF_VERIF_DATALENGTH, SF_VERIF_DATAEND, SF_VERIF_FILELENGTH,
+	SF_VERIF_FILEOFFSET, SF_VERIF_BLOCKWIDTH, SF_VERIF_BYTEWIDTH, SF_VERIF_NORM_FLOAT,
+	SF_VERIF_NORM_DOUBLE, SF_VERIF_ADD_CLIPPING, SF_VERIF_FLOAT_INT_MULT, SF_VERIF_SCALE_INT_FLOAT,
+	SF_VERIF_AUTO_HEADER, SF_VERIF_HEADER_INDX, SF_VERIF_HEADER_END, SF_VERIF_HEADER_LEN,
+	SF_VERIF_STR_COUNT, SF_VERIF_STR_HASH, SF_VERIF_RCHUNKS_USED, SF_VERIF_RCHUNKS_COUNT,
+	SF_VERIF_WCHUNKS_USED, SF_VERIF_WCHUNKS_COUNT, SF_VERIF_PEAK_HASH, SF_VERIF_BEXT_HASH,
+	SF_VERIF_CART_HASH, SF_VERIF_CUES_HASH, SF_VERIF_INSTR_HASH, SF_VERIF_CHANMAP_HASH,
+	SF_VERIF_IS_PIPE, SF_VERIF_VIRTUAL_IO, SF_VERIF_ENDIAN, SF_VERIF_IEEE_REPLACE,
+	SF_VERIF_FIELD_COUNT
+} ;
+
+static int64_t
+sf_verif_hash (const void *ptr, size_t len)
+{	const unsigned char *uc = (const unsigned char *) ptr ;
+	uint64_t h = 1469598103934665603ULL ;
+	size_t k ;
+
+	if (ptr == NULL)
+		return 0 ;
+	for (k = 0 ; k < len ; k++)
+	{	h ^= uc [k] ;
+		h *= 1099511628211ULL ;
+		} ;
+	return (int64_t) (h | 1) ;
+} /* sf_verif_hash */
+
+int
+sf_verif_state_digest (SNDFILE *sndfile, int64_t *out, int n)
+{	SF_PRIVATE *psf = (SF_PRIVATE *) sndfile ;
+	int64_t v [SF_VERIF_FIELD_COUNT] ;
+	int k, count ;
+
+	if (psf == NULL || out == NULL || psf->Magick != SNDFILE_MAGICK)
+		return -1 ;
+
+	memset (v, 0, sizeof (v)) ;
+	v [SF_VERIF_MODE] = psf->file.mode ;
+	v [SF_VERIF_LAST_OP] = psf->last_op ;
+	v [SF_VERIF_HAVE_WRITTEN] = psf->have_written ;
+	v [SF_VERIF_ERROR] = psf->error ;
+	v [SF_VERIF_READ_CURRENT] = psf->read_current ;
+	v [SF_VERIF_WRITE_CURRENT] = psf->write_current ;
+	v [SF_VERIF_FRAMES] = psf->sf.frames ;
+	v [SF_VERIF_CHANNELS] = psf->sf.channels ;
+	v [SF_VERIF_SAMPLERATE] = psf->sf.samplerate ;
+	v [SF_VERIF_FORMAT] = psf->sf.format ;
+	v [SF_VERIF_SEEKABLE] = psf->sf.seekable ;
+	v [SF_VERIF_SECTIONS] = psf->sf.sections ;
+	v [SF_VERIF_DATAOFFSET] = psf->dataoffset ;
+	v [SF_VERIF_DATALENGTH] = psf->datalength ;
+	v [SF_VERIF_DATAEND] = psf->dataend ;
+	v [SF_VERIF_FILELENGTH] = psf->filelength ;
+	v [SF_VERIF_FILEOFFSET] = psf->fileoffset ;
+	v [SF_VERIF_BLOCKWIDTH] = psf->blockwidth ;
+	v [SF_VERIF_BYTEWIDTH] = psf->bytewidth ;
+	v [SF_VERIF_NORM_FLOAT] = psf->norm_float ;
+	v [SF_VERIF_NORM_DOUBLE] = psf->norm_double ;
+	v [SF_VERIF_ADD_CLIPPING] = psf->add_clipping ;
+	v [SF_VERIF_FLOAT_INT_MULT] = psf->float_int_mult ;
+	v [SF_VERIF_SCALE_INT_FLOAT] = psf->scale_int_float ;
+	v [SF_VERIF_AUTO_HEADER] = psf->auto_header ;
+	v [SF_VERIF_HEADER_INDX] = psf->header.indx ;
+	v [SF_VERIF_HEADER_END] = psf->header.end ;
+	v [SF_VERIF_HEADER_LEN] = psf->header.len ;
+
+	count = 0 ;
+	{	uint64_t h = 1469598103934665603ULL ;
+		for (k = 0 ; k < SF_MAX_STRINGS ; k++)
+			if (psf->strings.data [k].type != 0)
+			{	const char *s = psf->strings.storage ? psf->strings.storage + psf->strings.data [k].offset : "" ;
+				count ++ ;
+				h = (h ^ (uint64_t) psf->strings.data [k].type) * 1099511628211ULL ;
+				h = (h ^ (uint64_t) sf_verif_hash (s, strlen (s))) * 1099511628211ULL ;
+				} ;
+		v [SF_VERIF_STR_COUNT] = count ;
+		v [SF_VERIF_STR_HASH] = count ? (int64_t) h : 0 ;
+		} ;
+
+	v [SF_VERIF_RCHUNKS_USED] = psf->rchunks.used ;
+	v [SF_VERIF_RCHUNKS_COUNT] = psf->rchunks.count ;
+	v [SF_VERIF_WCHUNKS_USED] = psf->wchunks.used ;
+	v [SF_VERIF_WCHUNKS_COUNT] = psf->wchunks.count ;
+
+	if (psf->peak_info != NULL && psf->sf.channels > 0 && psf->sf.channels <= SF_MAX_CHANNELS)
+		v [SF_VERIF_PEAK_HASH] = sf_verif_hash (psf->peak_info->peaks, psf->sf.channels * sizeof (PEAK_POS)) ;
+	if (psf->broadcast_16k != NULL)
+		v [SF_VERIF_BEXT_HASH] = sf_verif_hash (psf->broadcast_16k, sizeof (SF_BROADCAST_INFO_16K)) ;
+	if (psf->cart_16k != NULL)
+		v [SF_VERIF_CART_HASH] = sf_verif_hash (psf->cart_16k, sizeof (SF_CART_INFO_16K)) ;
+	if (psf->cues != NULL)
+		v [SF_VERIF_CUES_HASH] = sf_verif_hash (psf->cues, sizeof (uint32_t) + psf->cues->cue_count * sizeof (SF_CUE_POINT)) ;
+	if (psf->instrument != NULL)
+		v [SF_VERIF_INSTR_HASH] = sf_verif_hash (psf->instrument, sizeof (SF_INSTRUMENT)) ;
+	if (psf->channel_map != NULL && psf->sf.channels > 0 && psf->sf.channels <= SF_MAX_CHANNELS)
+		v [SF_VERIF_CHANMAP_HASH] = sf_verif_hash (psf->channel_map, psf->sf.channels * sizeof (int)) ;
+
+	v [SF_VERIF_IS_PIPE] = psf->is_pipe ;
+	v [SF_VERIF_VIRTUAL_IO] = psf->virtual_io ;
+	v [SF_VERIF_ENDIAN] = psf->endian ;
+	v [SF_VERIF_IEEE_REPLACE] = psf->ieee_replace ;
+
+	for (k = 0 ; k < n && k < SF_VERIF_FIELD_COUNT ; k++)
+		out [k] = v [k] ;
+
+	return SF_VERIF_FIELD_COUNT ;
+} /* sf_verif_state_digest */
+
+int
+sf_verif_check_invariants (SNDFILE *sndfile, char *why, int whylen)
+{	SF_PRIVATE *psf = (SF_PRIVATE *) sndfile ;
+	const char *msg = NULL ;
+
+	if (psf == NULL)
+		return 0 ;
+
+	if (psf->Magick != SNDFILE_MAGICK)
+		msg = "magick" ;
+	else if (psf->header.indx < 0 || psf->header.indx > psf->header.len)
+		msg = "header.indx > header.len" ;
+	else if (psf->header.end < 0 || psf->header.end > psf->header.len)
+		msg = "header.end > header.len" ;
+	else if (psf->rchunks.used > psf->rchunks.count)
+		msg = "rchunks.used > rchunks.count" ;
+	else if (psf->wchunks.used > psf->wchunks.count)
+		msg = "wchunks.used > wchunks.count" ;
+	else if (psf->sf.channels < 1)
+		msg = "channels < 1" ;
+	else if (psf->file.mode == SFM_READ && (psf->read_current < 0 || psf->read_current > psf->sf.frames))
+		msg = "read_current outside [0, frames]" ;
+	else if (psf->strings.storage_used > psf->strings.storage_len)
+		msg = "strings.storage_used > storage_len" ;
+
+	if (msg == NULL)
+		return 0 ;
+
+	if (why != NULL && whylen > 0)
+		snprintf (why, whylen, "%s", msg) ;
+	return 1 ;
+} /* sf_verif_check_invariants */
+
+#endif /* LIBSNDFILE_VERIF */
